@@ -1,14 +1,36 @@
 (** C12 — malformed AML is rejected with an error, never a crash, hang or stray pointer.
-    Statements only. *)
+    Statements only; every proof is [exact <lemma>] (Aml/LexProofs.v). *)
 From Coq Require Import NArith List.
-From FF Require Import Lib.Word Gen.Consts_device_acpi_aml Aml.Stream Aml.Lex.
+From FF Require Import Lib.Word Gen.Consts_device_acpi_aml Aml.Stream Aml.Lex Aml.LexProofs.
 Import ListNotations.
 Local Open Scope N_scope.
 
-Theorem C12_placeholder_readByte_window :
-  forall r b r', readByte r = Ok (Some b, r') -> r_offset r < r_pkgEnd r.
-Proof.
-  intros r b r'. unfold readByte, eof. destruct (r_pkgEnd r <=? r_offset r) eqn:E; [discriminate|].
-  intros _. apply N.leb_gt in E. exact E.
-Qed.
-Print Assumptions C12_placeholder_readByte_window.
+(** [reader_safe] (layers 1-2, full).  For every reader that satisfies the invariant [reader_wf] (cached length =
+    length of the table, pkgEnd <= length < 2^32, elements are bytes) and every second reader [r'] that has the same
+    length, offset and pkgEnd and the same bytes BELOW pkgEnd ([sim]): each lexer function returns on both (no Go
+    panic, no exhausted fuel), with equal values and equal resulting offsets, and leaves data, length and pkgEnd
+    untouched ([same_window]).  So no byte at an index >= pkgEnd (<= length) influences any result: every byte read
+    by the lexer lies below pkgEnd. *)
+Theorem C12_reader_safe :
+  safe2 parsePkgLength /\ (forall k, safe2 (parseNumConstant k)) /\ safe2 parseString /\ safe2 parseNameString /\
+  safe2 nextOpcode /\ safe2 peekNextOpcode.
+Proof. exact reader_safe. Qed.
+Print Assumptions C12_reader_safe.
+
+(** the primitive: a byte is only ever delivered from an index below pkgEnd *)
+Theorem C12_readByte_window : forall r, reader_wf r ->
+  (eof r = true /\ readByte r = Ok (None, r)) \/
+  (eof r = false /\ exists b, byte_at (r_data r) (r_offset r) = Some b /\
+                              readByte r = Ok (Some b, set_offset_raw r (r_offset r + 1)) /\ r_offset r < r_pkgEnd r).
+Proof. exact readByte_total. Qed.
+Print Assumptions C12_readByte_window.
+
+(** [lex_slices_inside] (full): every []byte returned by parseString / parseNameString - also when the function
+    reports failure - starts at the offset the function was called at and ends inside the current package, hence inside
+    the table.  ([no_wrap]: tables within 1 KiB of 4 GiB are excluded, there the parser's uint32 end-offset computation
+    can wrap.) *)
+Theorem C12_lex_slices_inside : forall r s ok r1, reader_wf r -> no_wrap r ->
+  parseString r = Ok (s, ok, r1) \/ parseNameString r = Ok (s, ok, r1) ->
+  slice_inside (r_len r) s /\ slice_inside (r_pkgEnd r) s /\ (forall p, s_ptr s = Some p -> p = r_offset r).
+Proof. exact lex_slices_inside. Qed.
+Print Assumptions C12_lex_slices_inside.
